@@ -3,11 +3,22 @@
 #ifndef VERIF_YAEP_GHOST_H
 #define VERIF_YAEP_GHOST_H
 #include <stddef.h>
+size_t gh_ci;              /* ghost child index (copy_anode) */
 size_t gh_vk;              /* ghost index into the terminal code translation vector */
+int gh_err_code;           /* code of the error exit taken */
 int gh_rt_calls;           /* number of read_token calls so far */
 int gh_rt_neg;             /* read_token has delivered a negative code */
 int gh_last_code;          /* code delivered by the most recent read_token call */
 int gh_adds;               /* 1 once tok_add has been called */
 int gh_last_added; void *gh_last_attr;   /* arguments of the most recent tok_add call */
 const char *gh_buf; size_t gh_n; int gh_ln0; size_t gh_off0;   /* description text, its size including the NUL, line number and cursor offset at entry */
+/* yaep_read_grammar, first region (RG.prefix) */
+struct grammar;
+struct grammar *gh_g;          /* the object the API call was given */
+int gh_emptied;                /* yaep_empty_grammar has run */
+int gh_rt_last; const char *gh_rt_name;   /* what read_terminal delivered last */
+int gh_repr_hit, gh_code_hit;  /* answers of the two lookups made for the current terminal */
+const char *gh_repr_arg; int gh_code_arg;
+int gh_defect;                 /* a documented defect has been delivered by the callbacks / seen by the lookups */
+int gh_added; const char *gh_add_name; int gh_add_code;   /* terminals added */
 #endif
